@@ -79,12 +79,14 @@ func init() {
 			}
 			return nil
 		}
-		r := m.feasible(c)
-		if r == Unsat {
-			m.abort("assume", "assumption infeasible")
-		}
-		if r == Unknown {
-			m.res.Incon = append(m.res.Incon, "unknown-assume@"+m.site())
+		if !m.replaying() {
+			r := m.feasible(c)
+			if r == Unsat {
+				m.abort("assume", "assumption infeasible")
+			}
+			if r == Unknown {
+				m.res.Incon = append(m.res.Incon, "unknown-assume@"+m.site())
+			}
 		}
 		m.addPC(c)
 		return nil
@@ -263,6 +265,24 @@ func init() {
 		m.w.schemas = append(m.w.schemas, &Schema{store: m.constStr(args[0], "store"), prefix: m.constStr(args[1], "prefix"), typ: pt.Elem(), keyFn: kf})
 		return nil
 	})
+	reg(symPkg+"DeclareInv", func(m *Machine, fn *ssa.Function, args []Value) Value {
+		iv := args[0].(*IfaceVal)
+		pt := under(iv.t).(*types.Pointer)
+		m.w.invs = append(m.w.invs, &TypeInv{typ: pt.Elem(), pred: args[1].(*IfaceVal).v.(*FuncVal)})
+		return nil
+	})
+	reg(symPkg+"CheckInvOnWrite", func(m *Machine, fn *ssa.Function, args []Value) Value {
+		m.w.checkInv = args[0].(*Term).bv
+		return nil
+	})
+	reg(symPkg+"FixField", func(m *Machine, fn *ssa.Function, args []Value) Value {
+		m.w.fixStr[m.constStr(args[0], "field")] = args[1].(*Term)
+		return nil
+	})
+	reg(symPkg+"SetBound", func(m *Machine, fn *ssa.Function, args []Value) Value {
+		m.w.bounds[m.constStr(args[0], "suffix")] = int(args[1].(*Term).iv.Int64())
+		return nil
+	})
 	reg(symPkg+"DeclareRaw", func(m *Machine, fn *ssa.Function, args []Value) Value {
 		n := int(args[2].(*Term).iv.Int64())
 		m.w.schemas = append(m.w.schemas, &Schema{store: m.constStr(args[0], "store"), prefix: m.constStr(args[1], "prefix"), rawLen: n})
@@ -369,6 +389,10 @@ type kfClass struct {
 
 // assert checks pc ∧ ¬c; classes are known-finding predicates.
 func (m *Machine) assert(label string, c *Term, classes []kfClass) {
+	if m.replaying() {
+		m.addPC(c) // decided by the ancestor path
+		return
+	}
 	m.res.Covers = append(m.res.Covers, "assert:"+label)
 	if c.IsConst() && c.bv {
 		return
@@ -428,6 +452,21 @@ func (m *Machine) onUncaughtPanic(x *goPanic) {
 	}
 	v := &Violation{Label: label, Kind: "panic", Site: site, Model: model, Trace: append([]int{}, m.trace...), Detail: x.kind + ": " + m.panicText(x), KFs: classes, Outside: len(classes) == 0}
 	v.Case = m.buildCase(label, model)
+	m.res.Violations = append(m.res.Violations, v)
+}
+
+// onUnwind: a loop ran past the unwinding bound on a feasible path (unwinding-assertion failure).
+// It is reported as a candidate non-termination; native replay under a watchdog confirms or refutes it.
+func (m *Machine) onUnwind(fr *Frame) {
+	site := m.repoSite()
+	classes := m.eng.kfPanicClasses(site, "unwind")
+	want := m.caseTerms()
+	r, model := m.sol.CheckInc(m.pc, nil, want)
+	if r != Sat {
+		return
+	}
+	v := &Violation{Label: "terminates", Kind: "unwind", Site: site, Model: model, Trace: append([]int{}, m.trace...), Detail: "loop exceeded unwinding bound in " + fr.fn.String(), KFs: classes, Outside: len(classes) == 0}
+	v.Case = m.buildCase("terminates", model)
 	m.res.Violations = append(m.res.Violations, v)
 }
 
